@@ -47,13 +47,10 @@ func (c *Channel) Watch(h AdjudicatorEventHandler) error {
 	log := c.Log().WithField("proc", "watcher")
 	defer log.Info("Watcher returned.")
 
-	statesPub, eventsSub, err := c.startWatching()
+	eventsSub, err := c.startWatching()
 	if err != nil {
 		return err
 	}
-	c.machMtx.Lock()
-	c.statesPub = statesPub
-	c.machMtx.Unlock()
 	err = c.handleEvents(eventsSub, h)
 	if err != nil {
 		return errors.WithMessage(err, "handling events from watcher")
@@ -64,7 +61,11 @@ func (c *Channel) Watch(h AdjudicatorEventHandler) error {
 	return err
 }
 
-func (c *Channel) startWatching() (watcher.StatesPub, watcher.AdjudicatorSub, error) {
+// startWatching registers the channel with the watcher, starting with the
+// current transaction, and from then on hands every newly enabled state to it.
+// Both happen under one lock of the machine: a state enabled in between would
+// reach neither the registration nor the publisher.
+func (c *Channel) startWatching() (watcher.AdjudicatorSub, error) {
 	c.machMtx.Lock()
 	defer c.machMtx.Unlock()
 
@@ -82,8 +83,9 @@ func (c *Channel) startWatching() (watcher.StatesPub, watcher.AdjudicatorSub, er
 		return c.client.watcher.StartWatchingSubChannel(c.Ctx(), c.parent.ID(), signedState)
 	}()
 	if err != nil {
-		return nil, nil, errors.WithMessage(err, "registering channel with the watcher")
+		return nil, errors.WithMessage(err, "registering channel with the watcher")
 	}
+	c.statesPub = statesPub
 	ok := c.OnCloseAlways(func() {
 		err := c.client.watcher.StopWatching(c.Ctx(), c.ID())
 		if err != nil {
@@ -91,9 +93,9 @@ func (c *Channel) startWatching() (watcher.StatesPub, watcher.AdjudicatorSub, er
 		}
 	})
 	if !ok {
-		return nil, nil, errors.WithMessage(err, "channel already closed")
+		return nil, errors.WithMessage(err, "channel already closed")
 	}
-	return statesPub, eventsSub, nil
+	return eventsSub, nil
 }
 
 func (c *Channel) handleEvents(eventsSub watcher.AdjudicatorSub, h AdjudicatorEventHandler) error {
